@@ -431,7 +431,7 @@ def tables_part(acc: Acc, tier, shard, nshards):
             msgs = [m for m in W.validator().validate(d, schema_name=name, version=v) if "is a required property" not in m.get("error", "")]
             if "KF12" in kf and name == "label":
                 n0 = len(msgs)
-                msgs = [m for m in msgs if m["message"] != "ERROR: Invalid value in BACKGROUNDSHADOWSIZE"]
+                msgs = [m for m in msgs if not m["message"].upper().endswith(" BACKGROUNDSHADOWSIZE")]
                 if len(msgs) != n0:
                     acc.excl("KF12:label_backgroundshadowsize")
             if msgs:
